@@ -4,12 +4,18 @@ use crate::Args;
 pub mod c01;
 pub mod c02;
 pub mod c03;
+pub mod c04;
+pub mod c05;
+pub mod c06;
 
 pub fn dispatch(args: &Args, rep: &mut Report) {
     match args.prop.as_str() {
         "C01" => c01::run(args, rep),
         "C02" => c02::run(args, rep),
         "C03" => c03::run(args, rep),
+        "C04" => c04::run(args, rep),
+        "C05" => c05::run(args, rep),
+        "C06" => c06::run(args, rep),
         p => {
             eprintln!("unknown property {p}");
             std::process::exit(2);
